@@ -25,6 +25,9 @@
 #define U VARINT_BITMAP_MAX_VALUE
 #define AMAX VARINT_BITMAP_ARRAY_MAX
 #define BSZ VARINT_BITMAP_BITMAP_SIZE
+#if defined(VARINT_VERIF_BITMAP_MAX_VALUE) && VARINT_BITMAP_MAX_VALUE != VARINT_VERIF_BITMAP_MAX_VALUE
+#error "varintBitmap.h ignores VARINT_VERIF_BITMAP_*: the MATTSTA_VARINT_VERIF hook is missing (proposed-fixes/HOOK-bitmap.patch)"
+#endif
 #if U > 32
 #error "bm.h is for scaled universes (U <= 32)"
 #endif
